@@ -94,6 +94,23 @@ def gen_firewall():
     rts = [n for n in rd.body if isinstance(n, ast.Try)]
     if len(rts) != 1: raise ExtractionError('SocketDriver._read: expected one top-level try')
     read_catches = [_exc_name(h.type) for h in rts[0].handlers]
+    # log calls on the read/write path whose message is formatted before the call (the supybot Logger
+    # formats msg % args itself: pre-formatted server text would be formatted twice)
+    preformatted = []
+    def scan(fn, where):
+        for n in ast.walk(fn):
+            if isinstance(n, ast.Call) and isinstance(n.func, ast.Attribute) and n.func.attr in ('debug', 'info', 'warning', 'error', 'critical', 'exception') \
+                    and n.args:
+                a0 = n.args[0]
+                pre = (isinstance(a0, ast.BinOp) and isinstance(a0.op, ast.Mod)) or isinstance(a0, ast.JoinedStr) or \
+                      (isinstance(a0, ast.Call) and isinstance(a0.func, ast.Attribute) and a0.func.attr == 'format')
+                if pre:
+                    preformatted.append(where)
+    scan(pm, 'parseMsg')
+    for name in ('_read', '_sendIfMsgs', '_handleSocketError', 'run', '_select'):
+        scan(find_func(sock, name, cls='SocketDriver'), 'SocketDriver.' + name)
+    scan(run, 'drivers.run')
+    scan(fm, 'Irc.feedMsg')
     body = ('namespace Gen\n\n'
             '/-- irclib.Irc.__firewalled__: (method, has an error handler) -/\n'
             'def ircFirewalled : List (String × Bool) :=\n  %s\n\n'
@@ -116,10 +133,13 @@ def gen_firewall():
             'def encodeErrors : String := %s\n\n'
             '/-- SocketDriver._read: classes of its except clauses, in order -/\n'
             'def readCatches : List String := %s\n\n'
+            '/-- functions of the read/write path containing a log call whose message is formatted before the call -/\n'
+            'def preformattedLogCalls : List String := %s\n\n'
             'end Gen\n') % (
         _lean_pairs(_firewalled(irclib, 'Irc')), _lean_pairs(_firewalled(irclib, 'IrcState')),
         _lean_pairs(_firewalled(irclib, 'IrcCallback')), lstring(outer), lstring(handler), lstring(run_catch),
         llist(lstring(x) for x in parse_catch),
         llist('(%s, %s)' % (lstring(a), lstring(b)) for a, b in regions),
-        'true' if unprotected_dispatch else 'false', lstring(errors), llist(lstring(x) for x in read_catches))
+        'true' if unprotected_dispatch else 'false', lstring(errors), llist(lstring(x) for x in read_catches),
+        llist(lstring(x) for x in sorted(set(preformatted))))
     write_if_changed('Firewall.lean', body, 'src/irclib.py, src/log.py, src/drivers/__init__.py, src/drivers/Socket.py')
